@@ -192,7 +192,9 @@ class DictArray(StorageBase):
             return
         path = self._path()
         path.parent.mkdir(parents=True, exist_ok=True)
-        dump(self._dict, path)
+        # Persist the data itself; `self._dict` may be a manager proxy (shared memory),
+        # whose pickle is only a reference to a manager process that will be gone later.
+        dump(dict(self._dict), path)
 
     def load(self) -> None:
         """Load the dict storage from disk."""
@@ -201,7 +203,7 @@ class DictArray(StorageBase):
         path = self._path()
         if not path.is_file():  # e.g., the folder was created but nothing was persisted yet
             return
-        self._dict = load(path)
+        self._dict.update(load(path))  # keep the (possibly shared) mapping object
 
     @property
     def dump_in_subprocess(self) -> bool:
